@@ -305,6 +305,8 @@ def native_checks(pid, mine, registry, reports, tier, seed):
         if m['xc']:
             out['cross_check'].append({'contract': type(con).__name__, 'evaluations': m['xc'], 'mismatches': m['mm']})
         out['evaluations'] += m['n'] + m['xc']
+    out['samples'] = [{'contract': type(reports[j[1]]['contract']).__name__, 'case': j[2], 'input': j[3][0]}
+                      for j in jobs[:400:40] if j[0] == 'rt' and j[3]][:6]
     out['native_wall_s'] = round(time.time() - t0, 2)
     out['distinct_nontrivial'] = len(distinct)
     out['rule'] = ('native runs: every contract with a native harness is evaluated on the real function for argument '
@@ -400,6 +402,8 @@ def match_known_native(known, failure):
         if 'first_char_in' in nat and not any(v[:1] and v[0] in nat['first_char_in'] for v in vals):
             continue
         if 'inputs' in nat and inp not in nat['inputs']:
+            continue
+        if 'input_flag' in nat and not (isinstance(inp, dict) and inp.get(nat['input_flag']) is True):
             continue
         return k
     return None
